@@ -282,6 +282,30 @@ func specialHandler(display string) *special {
 	case "fmt.Sprintf", "fmt.Sprint", "fmt.Sprintln":
 		return &special{run: func(fr *Frame, in ssa.Instruction, c *ssa.CallCommon, ci calleeInfo, args []Val) []Val {
 			ex := fr.ex
+			// the result is a function of the format and the formatted values (nothing else is known about it) when the
+			// variadic arguments are strings whose values are known at the call; otherwise an arbitrary string
+			if display == "fmt.Sprintf" && len(c.Args) == 2 {
+				if elems, ok := fr.varargsStringElems(c.Args[1]); ok {
+					fn := fmt.Sprintf("sprintf_%d", len(elems))
+					uf := ex.S.UFuns[fmt.Sprintf("sprintf%d", len(elems))] // nameable in contracts when a spec declares it
+					if uf != nil && len(uf.Params) == len(elems)+1 {
+						ex.declUFun(uf)
+						fn = "uf_" + uf.Name
+					} else {
+						uf = nil
+					}
+					sig := "(Str"
+					call := "(" + fn + " " + args[0].T
+					for _, e := range elems {
+						sig += " Str"
+						call += " " + e
+					}
+					if uf == nil {
+						ex.declFun(fn, sig+") Str")
+					}
+					return []Val{{T: ex.define("sprintf", SStr, call+")"), S: SStr, G: types.Typ[types.String]}}
+				}
+			}
 			return []Val{{T: ex.fresh("sprintf", SStr), S: SStr, G: types.Typ[types.String]}}
 		}, assigns: noAssigns}
 	}
@@ -550,6 +574,61 @@ func runSortSlice(fr *Frame, in ssa.Instruction, c *ssa.CallCommon, ci calleeInf
 	}
 	ex.assume(g, fr.curReach)
 	return nil
+}
+
+// varargsStringElems: the values of a variadic ...any argument list built at the call site, when every one of them is a
+// Go string (boxed into the interface at the call).
+func (fr *Frame) varargsStringElems(v ssa.Value) ([]string, bool) {
+	sl, ok := v.(*ssa.Slice)
+	if !ok {
+		return nil, false
+	}
+	al, ok := sl.X.(*ssa.Alloc)
+	if !ok {
+		return nil, false
+	}
+	at, ok := al.Type().Underlying().(*types.Pointer).Elem().Underlying().(*types.Array)
+	if !ok || al.Referrers() == nil {
+		return nil, false
+	}
+	out := make([]string, at.Len())
+	found := 0
+	for _, ref := range *al.Referrers() {
+		ia, ok := ref.(*ssa.IndexAddr)
+		if !ok || ia.Referrers() == nil {
+			continue
+		}
+		k, ok := ia.Index.(*ssa.Const)
+		if !ok {
+			return nil, false
+		}
+		idx, _ := constant.Int64Val(k.Value)
+		for _, r2 := range *ia.Referrers() {
+			st, ok := r2.(*ssa.Store)
+			if !ok || st.Addr != ia {
+				continue
+			}
+			mi, ok := st.Val.(*ssa.MakeInterface)
+			if !ok {
+				return nil, false
+			}
+			b, isB := mi.X.Type().Underlying().(*types.Basic)
+			if !isB || b.Kind() != types.String {
+				return nil, false
+			}
+			if _, has := fr.vals[mi.X]; !has {
+				if _, isC := mi.X.(*ssa.Const); !isC {
+					return nil, false
+				}
+			}
+			out[idx] = fr.val(mi.X).T
+			found++
+		}
+	}
+	if found != int(at.Len()) {
+		return nil, false
+	}
+	return out, true
 }
 
 // retryClosure: the function literal handed to retry.RetryOnConflict / retry.OnError (last argument), if it is one.
